@@ -137,6 +137,16 @@ class SymReal(_Num):
     def __init__(self, t):
         self.t = tz(t) if not isinstance(t, z3.ExprRef) else t
 
+    def __round__(self, ndigits=None):
+        """builtin round(): an integer within 1/2 (ties: either neighbour -- Python rounds half to even)"""
+        if ndigits is not None:
+            raise Unsupported('round to digits')
+        n = core.fresh_int('pyround')
+        core.assume(z3.And(self.t - z3.ToReal(n) <= tz(Fr(1, 2)), z3.ToReal(n) - self.t <= tz(Fr(1, 2))))
+        if core.CTX is not None:
+            core.ctx().log.append(('pyround', self.t, n))
+        return SymInt(n)
+
     def __float__(self):
         cv = concrete(self.t)
         if cv is None:
